@@ -280,6 +280,17 @@ class Run:
                 rec["err"] = kit.classify(ex)
                 rec["exc_type"] = type(ex).__name__
                 rec["msg"] = str(ex)[:200]
+        elif kind == "gbrename":
+            import re as _re
+            r = self.results[op["from"]]
+            items = list(r[0].values()) + list(r[1].values())
+            try:
+                L.GraphBuilder(to_float32=False).add(*items).rename("^" + _re.escape(op["name"]) + "$", op["name"] + op.get("suffix", "_g"))
+                rec["ok"] = True
+            except Exception as ex:  # noqa
+                rec["ok"] = False
+                rec["err"] = kit.classify(ex)
+                rec["msg"] = str(ex)[:200]
         elif kind == "setval":
             model = self.results[op["m"]]
             rec["bad"] = self.behaviour(model, None) if len(model.nodes) else ["model is empty"]
@@ -436,6 +447,26 @@ CORPUS = [
                                         {"k": "var", "name": "y", "value": {"const": 4}, "dist": 3, "role": "obs"}],
      "ops": [{"op": "build", "roots": [4]}, {"op": "build", "roots": [4], "via": "gb", "copy": True},
              {"op": "setval", "m": 0}, {"op": "setval", "m": 1}, {"op": "pop", "m": 0}, {"op": "build", "roots": {"from": 4}}]},
+    # seeded C15-4: a user root node whose name starts with "_model" but not "_model_" (rejected by build; if it were
+    # accepted, pop / copy would drop it)
+    {"tag": "corpus.resname", "objs": [{"k": "value", "name": "a", "val": 1}, {"k": "calc", "name": "_modelled_mean", "pos": [0]},
+                                       {"k": "calc", "name": "x_seed", "pos": [0]}],
+     "ops": [{"op": "build", "roots": [1, 2]}, {"op": "pop", "m": 0}, {"op": "build", "roots": {"from": 1}},
+             {"op": "copynv", "m": 2}, {"op": "build", "roots": {"from": 3}}]},
+    {"tag": "corpus.resname2", "objs": [{"k": "value", "name": "a", "val": 1}, {"k": "calc", "name": "x_seed", "pos": [0], "seed": True},
+                                        {"k": "var", "name": "_mode", "value": 1, "dist": None}],
+     "ops": [{"op": "build", "roots": [2]}, {"op": "pop", "m": 0}, {"op": "build", "roots": {"from": 1}}, {"op": "setval", "m": 2}]},
+    # seeded C15-6: build, pop, RENAME the seeded node / its variable, rebuild
+    {"tag": "corpus.rename", "objs": [{"k": "value", "name": "a", "val": 2}, {"k": "calc", "name": "s", "pos": [0], "seed": True},
+                                      {"k": "calc", "name": "", "pos": [0], "seed": True},
+                                      {"k": "var", "name": "x", "value": 2, "dist": None},
+                                      {"k": "calc", "name": "top", "pos": [1, 3]}],
+     "ops": [{"op": "build", "roots": [4]}, {"op": "pop", "m": 0},
+             {"op": "mutate", "target": {"m": 1, "node": "s"}, "mut": "name", "arg": "t"},
+             {"op": "mutate", "target": {"m": 1, "var": "x"}, "mut": "name", "arg": "z"},
+             {"op": "build", "roots": {"from": 1}}, {"op": "setval", "m": 4}, {"op": "copynv", "m": 4},
+             {"op": "gbrename", "from": 6, "name": "t", "suffix": "_g"},
+             {"op": "build", "roots": {"from": 6}}, {"op": "setval", "m": 8}]},
     # a full statistical model with dists, roles, groups; every round trip
     {"tag": "corpus.full", "objs": [{"k": "var", "name": "mu", "value": {"const": 1}, "dist": None, "role": "param"},
                                     {"k": "dist", "name": "", "pos": [0]},
@@ -523,8 +554,12 @@ def gen_objs(rnd, n, style):
     return objs, nodeish
 
 
+RES_NAMES = ["_modelled_mean", "_models", "_model", "_modelx_seed", "_modelled_seed", "_model_u", "_model_x_seed",
+             "x_seed", "my_seed", "_seed", "model_x", "_Model_x", "_mode", "a_model_b"]
+
+
 def gen_prog(rnd, style, size):
-    objs, nodeish = gen_objs(rnd, size, style)
+    objs, nodeish = gen_objs(rnd, size, "seeded" if style == "rename" else style)
     ops = []
     inputs_of = set()
     for o in objs:
@@ -561,6 +596,12 @@ def gen_prog(rnd, style, size):
                 if m == "add_inputs" and arg["kw"][0][1] == t:
                     continue
                 ops.append({"op": "mutate", "target": t, "mut": m, "arg": arg})
+    if style == "resnames" and nodeish:
+        # one object (root or not, node or variable) gets a name around the reserved prefix / the seed suffix
+        t = rnd.choice(roots) if rnd.random() < 0.6 else rnd.choice(nodeish)
+        objs[t]["name"] = rnd.choice(RES_NAMES)
+        if rnd.random() < 0.3:
+            objs[t]["seed"] = objs[t]["k"] == "calc"
     via = rnd.choice(["gb", "gb", "gb", "model"])
     b0 = len(ops)
     ops.append({"op": "build", "roots": roots, "via": via, "copy": style == "copy" and rnd.random() < 0.6})
@@ -569,6 +610,27 @@ def gen_prog(rnd, style, size):
         if style not in ("cycle", "dup") else rnd.choice(["second", "mutators"])
     if style in ("foreign", "livecopy", "reuse"):
         script = style
+    if style == "resnames":
+        script = rnd.choice(["roundtrip", "copies", "mixed"])
+    if style == "rename":
+        # build, pop / copy, rename (node.name, var.name, GraphBuilder.rename), rebuild
+        h = b0 + 1
+        ops.append({"op": rnd.choice(["pop", "pop", "copynv"]), "m": b0})
+        for j in range(rnd.randint(1, 3)):
+            r = rnd.random()
+            if r < 0.45:
+                ops.append({"op": "mutate", "target": {"m": h, "node": "?seeded" if rnd.random() < 0.7 else "?any"},
+                            "mut": "name", "arg": f"rn{j}"})
+            elif r < 0.75:
+                ops.append({"op": "mutate", "target": {"m": h, "var": "?any"}, "mut": "name", "arg": f"rv{j}"})
+            else:
+                ops.append({"op": "gbrename", "from": h, "name": rnd.choice(["?seeded", "?any"]), "suffix": f"_g{j}"})
+        k = len(ops)
+        ops.append({"op": "build", "roots": {"from": h}, "via": rnd.choice(["gb", "model"])})
+        ops.append({"op": "setval", "m": k})
+        ops.append({"op": "pop", "m": k})
+        ops.append({"op": "build", "roots": {"from": k + 2}})
+        return {"objs": objs, "ops": ops, "tag": f"{style}.{script}"}
     if script == "foreign":
         o1 = len(objs)
         objs.append({"k": "var", "name": "outsider", "value": {"const": 0}, "dist": None})
@@ -644,8 +706,8 @@ def gen_prog(rnd, style, size):
     return {"objs": objs, "ops": ops, "tag": f"{style}.{script}"}
 
 
-STYLES = ["plain", "unnamed", "seeded", "dup", "cycle", "groups", "copy", "premut", "foreign", "livecopy", "reuse"]
-MIN_PER_STYLE = {"quick": 16, "thorough": 180}
+STYLES = ["plain", "unnamed", "seeded", "dup", "cycle", "groups", "copy", "premut", "foreign", "livecopy", "reuse", "resnames", "rename"]
+MIN_PER_STYLE = {"quick": 14, "thorough": 150}
 
 
 def concretise(run, op, rnd):
@@ -670,6 +732,15 @@ def concretise(run, op, rnd):
                 if not c:
                     return None
                 r["node"] = rnd.choice(c)
+    if op["op"] == "gbrename":
+        r = run.results.get(op["from"])
+        if not isinstance(r, tuple) or not r[0]:
+            return None
+        if op.get("name") in (None, "?seeded", "?any"):
+            c = [n for n in sorted(r[0]) if r[0][n].needs_seed] if op.get("name") == "?seeded" else []
+            cur = rnd.choice(c or sorted(r[0]))
+            op["name"] = r[0][cur].name          # the current name of that node (it may have been renamed)
+        return op
     if op["op"] == "mutate" and isinstance(op["target"], dict):
         r = run.results.get(op["target"]["m"])
         if r is None:
@@ -681,6 +752,10 @@ def concretise(run, op, rnd):
         key = "node" if "node" in op["target"] else "var"
         if op["target"][key] == "?any":
             op["target"][key] = rnd.choice(sorted(names))
+        elif op["target"][key] == "?seeded":
+            pool = r[0] if isinstance(r, tuple) else r.nodes
+            c = [n for n in sorted(names) if pool[n].needs_seed] or sorted(names)
+            op["target"][key] = rnd.choice(c)
         obj = run.target(op["target"])
         if op["mut"] == "?any" or op.get("arg") is None:
             if isinstance(obj, L.Var):
@@ -731,6 +806,8 @@ def run_case(prog, rnd):
             need.append(op["roots"]["from"])
         if isinstance(op.get("target"), dict):
             need.append(op["target"]["m"])
+        if op["op"] == "gbrename":
+            need.append(op["from"])
         for r in _arg_refs(op):
             if isinstance(r, dict):
                 need.append(r["m"])
@@ -760,10 +837,26 @@ def run_case(prog, rnd):
 def replay_program(prog):
     """re-run a concretised program (no placeholders; 'skip' ops are ignored)"""
     run = Run(prog)
+    done = []
     for k, op in enumerate(prog["ops"]):
-        if op["op"] == "skip":
+        need = [op[x] for x in ("m", "from") if x in op]
+        if isinstance(op.get("roots"), dict):
+            need.append(op["roots"]["from"])
+        if isinstance(op.get("target"), dict):
+            need.append(op["target"]["m"])
+        need += [r["m"] for r in _arg_refs(op) if isinstance(r, dict)]
+        if (op["op"] == "skip" or any(h not in run.results for h in need)
+                or (op.get("reuse") is not None and op["reuse"] not in run.builders)
+                or (op["op"] in ("pop", "setval", "copynv", "deepcopy", "saveload")
+                    and (isinstance(run.results[op["m"]], tuple) or not len(run.results[op["m"]].nodes)))):
+            done.append({"op": "skip"})
             continue
-        run.run_op(k, op)
+        try:
+            run.run_op(k, op)
+            done.append(op)
+        except KeyError:          # a name that does not exist on this tree
+            done.append({"op": "skip"})
+    prog = dict(prog, ops=done)
     return {"prog": prog, "snaps": run.snaps, "steps": run.steps, "tag": prog.get("tag", "")}
 
 
@@ -825,6 +918,11 @@ def generate(ctx):
                     ctx.hist("mutate.inputs_from_live_model." + s["op"]["mut"])
             else:
                 ctx.hist(k)
+            if k == "build" and isinstance(s["op"]["roots"], dict) and any(
+                    t["op"]["op"] == "gbrename" or (t["op"]["op"] == "mutate" and t["op"]["mut"] == "name" and isinstance(t["op"]["target"], dict)
+                                                    and t["op"]["target"]["m"] == s["op"]["roots"]["from"] and t["ok"])
+                    for t in c["steps"][:c["steps"].index(s)]):
+                ctx.hist("build.rebuild_after_rename." + ("ok" if s["ok"] else "rejected"))
         seen.add(json.dumps(c["prog"], sort_keys=True))
     nsteps = sum(len(c["steps"]) for c in cases)
     ctx.count(nsteps, len(seen))
@@ -1053,9 +1151,18 @@ def strip_model_part(summ):
     return {"nodes": summ["nodes"], "vars": summ["vars"], "edges": summ["edges"], "state": summ["state"]}
 
 
+MODEL_LOG_NAMES = ("_model_log_lik", "_model_log_prior", "_model_log_prob")
+
+
+def _build_created_name(nm):
+    """names of the nodes build_model itself adds to a model"""
+    return nm in MODEL_LOG_NAMES or (nm.startswith("_model_") and nm.endswith("_seed"))
+
+
 def oracle(c):
     snaps = c["snaps"]
     built = {}
+    renamed = set()
     for s in c["steps"]:
         op = s["op"]
         k = op["op"]
@@ -1142,7 +1249,7 @@ def oracle(c):
                 if s.get("value_bad"):
                     return f"{where}: {s['value_bad'][0]}"
                 # rebuilt from popped / copied nodes: must reproduce the model it came from
-                if isinstance(op["roots"], dict) and not op["roots"].get("drop"):
+                if isinstance(op["roots"], dict) and not op["roots"].get("drop") and op["roots"]["from"] not in renamed:
                     src = built.get(("src", op["roots"]["from"]))
                     if src is not None:
                         a, b = strip_model_part(src), strip_model_part(summ)
@@ -1185,9 +1292,15 @@ def oracle(c):
             built[("src", _opindex(c, s))] = s["summary_before"]
             if any(post["nodes"][i]["inmodel"] for i in s["mnodes"]):
                 return f"{where}: a popped node still refers to the model"
-            want = sorted(pre["nodes"][i]["name"] for i in s["mnodes"] if not pre["nodes"][i]["name"].startswith("_model"))
+            lost = sorted(pre["nodes"][i]["name"] for i in s["mnodes"]
+                          if pre["nodes"][i]["name"] not in s["keys"] and not _build_created_name(pre["nodes"][i]["name"]))
+            if lost:
+                return f"{where}: pop_nodes_and_vars dropped nodes that build_model did not create: {lost}"
+            want = sorted(pre["nodes"][i]["name"] for i in s["mnodes"] if not _build_created_name(pre["nodes"][i]["name"]))
             if sorted(s["keys"]) != want:
-                return f"{where}: popped node names {sorted(s['keys'])} != model nodes without _model*: {want}"
+                return f"{where}: popped node names {sorted(s['keys'])} != model nodes without the model's own nodes: {want}"
+            if sorted(s["vkeys"]) != sorted(s["summary_before"]["vars"]):
+                return f"{where}: popped variable names differ from the model's variables"
             if s["model_left"] != [0, 0]:
                 return f"{where}: the popped model still has nodes"
         elif k in ("copynv", "deepcopy", "saveload"):
@@ -1201,9 +1314,10 @@ def oracle(c):
                 built[("src", _opindex(c, s))] = s["orig_before"]
                 if not s["copies_free"]:
                     return f"{where}: copied nodes still refer to a model"
-                want = sorted(nm for nm in s["orig_before"]["nodes"] if not nm.startswith("_model"))
+                want = sorted(nm for nm in s["orig_before"]["nodes"] if not _build_created_name(nm))
                 if sorted(s["keys"]) != want:
-                    return f"{where}: copied node names differ from the model's"
+                    lost = [nm for nm in want if nm not in s["keys"]]
+                    return f"{where}: copy_nodes_and_vars: copied node names differ from the model's (missing {lost})"
             else:
                 a, b = strip_model_part(s["orig_before"]), strip_model_part(s["copy_summary"])
                 if _canon(a) != _canon(b):
@@ -1212,7 +1326,13 @@ def oracle(c):
                     return f"{where}: nodes of the copy do not refer to the copy as their model"
                 if s["indep"]:
                     return f"{where}: {s['indep'][0]}"
+        elif k == "gbrename":
+            renamed.add(op["from"])
+            if not s["ok"]:
+                return f"{where}: GraphBuilder.rename on popped / copied objects raised {s['err']}: {s.get('msg')}"
         elif k == "mutate":
+            if op["mut"] == "name" and s["ok"] and isinstance(op["target"], dict):
+                renamed.add(op["target"]["m"])
             if s["frozen_target"]:
                 if s["ok"]:
                     return f"{where}: structural mutation {op['mut']!r} of an object that belongs to a model was accepted"
@@ -1269,8 +1389,12 @@ def _user_seed(sn, i):
 
 
 def _stale_seed(sn, i):
+    """a seed node left behind by an earlier build: free Value node with a _model_*_seed name that a free node
+    reads through its "seed" keyword input (the next build removes that input)"""
     n = sn["nodes"][i]
-    return n["name"].startswith("_model_") and n["name"].endswith("_seed") and not n["inmodel"]
+    if not (n["name"].startswith("_model_") and n["name"].endswith("_seed") and not n["inmodel"] and n["kind"] in ("Value", "Data")):
+        return False
+    return any(not m["inmodel"] and any(k == "seed" and j == i for k, j in m["kw"]) for m in sn["nodes"])
 
 
 def _canon(a):
